@@ -75,6 +75,18 @@ def main():
         ctx.reach = reach
         try:
             res = mod.run(ctx)
+            # Scenarios that died (a public call overran its step budget) are abandoned by the checks; what the passive wire
+            # monitors of this property recorded BEFORE the death is still an observation and must not be lost with the scenario
+            # (a client that re-sends one frame forever is exactly how a repeated sequence count looks).  Only monitors whose
+            # findings cannot be artefacts of the abort itself: frames (C11), paths (C09), sequence counts (C17), sizes (C04).
+            if pid in ("C04", "C09", "C11", "C17"):
+                from vlib import bench as _bench
+                for op_, b_ in _bench.DEAD_BENCHES:
+                    for pid_, key_, what_, w_ in list(b_.log.violations):
+                        if pid_ == pid:
+                            res.violation(f"{key_}:scenario-died", f"{what_} [in a scenario that then died: {op_} overran its step budget]", {"detail": w_})
+                    b_.log.violations[:] = [v_ for v_ in b_.log.violations if v_[0] != pid]
+                res.count("scenarios-died", len(_bench.DEAD_BENCHES))
             reach.stop()
             anchors = getattr(mod, "ANCHORS", None)
             if anchors:
